@@ -67,6 +67,7 @@ func runOne(prop string, pd *propDef, seed uint64, idx int64, tier string, sc *S
 		sc.Prop = prop
 		sc.Seed = seed
 	}
+	postProbes = map[string]int{}
 	rd := runScenario(sc, pd.setup)
 	o := &Outcome{Seed: seed, Index: idx, Prop: prop, Family: sc.Family, Kernel: rd.Res.Verdict,
 		Hash: rd.Res.Hash, Steps: rd.Res.Steps, Switches: rd.Res.Switches, SimNanos: rd.Res.Now - sc.Sim.StartNanos,
@@ -81,6 +82,12 @@ func runOne(prop string, pd *propDef, seed uint64, idx int64, tier string, sc *S
 		if r.Panic != "" && !strings.Contains(r.Panic, "injected loader panic") {
 			vs = append(vs, Violation{prop + "/panic/call=" + r.Op.Kind, "API call panicked: " + firstLine(r.Panic)})
 		}
+	}
+	for k, v := range postProbes {
+		if o.Probes == nil {
+			o.Probes = map[string]int{}
+		}
+		o.Probes[k] += v
 	}
 	o.Violations = dedupViolations(vs)
 	switch {
@@ -144,6 +151,7 @@ func main() {
 	maxGor := flag.Int("maxgoroutines", 4000, "recycle the process when this many goroutines have leaked")
 	full := flag.Bool("full", false, "include scenario and history in every outcome")
 	samples := flag.Int("samples", 3, "include scenario+history for the first n runs")
+	histMax := flag.Int("histmax", 200, "history lines kept per outcome")
 	flag.BoolVar(&debugPolicy, "debug", false, "replay: record the policy state after every policy step in the history")
 	flag.Parse()
 	runtime.GOMAXPROCS(2)
@@ -181,7 +189,11 @@ func main() {
 		if rf.Scenario != nil {
 			o, rd = runOne(*prop, pd, rf.Scenario.Seed, rf.Index, rf.Tier, rf.Scenario)
 		} else {
-			o, rd = runOne(*prop, pd, rf.Seed, rf.Index, rf.Tier, nil)
+			sd := rf.Seed
+			if sd == 0 {
+				sd = seedFor(rf.BaseSeed, rf.Index)
+			}
+			o, rd = runOne(*prop, pd, sd, rf.Index, rf.Tier, nil)
 		}
 		o.Scenario = rf.Scenario
 		if rd != nil {
@@ -199,7 +211,7 @@ func main() {
 		o, rd := runOne(*prop, pd, seed, idx, *tier, nil)
 		if rd != nil && (*full || o.Verdict == "violation" || done < int64(*samples)) {
 			o.Scenario = rd.Sc
-			o.History = renderHistory(rd, 200)
+			o.History = renderHistory(rd, *histMax)
 		}
 		enc.Encode(o)
 		done++
@@ -220,6 +232,7 @@ type ReplayFile struct {
 	Property  string    `json:"property"`
 	Tier      string    `json:"tier"`
 	Seed      uint64    `json:"seed"`
+	BaseSeed  uint64    `json:"base_seed,omitempty"` // VERIF_SEED; with Index it determines the run seed when Seed is 0
 	Index     int64     `json:"index"`
 	Build     string    `json:"build"`
 	Signature string    `json:"signature"`
